@@ -181,4 +181,26 @@ def hintAttrs : List (String × String) := [
   ("familyBlues", "postscriptFamilyBlues"), ("familyOtherBlues", "postscriptFamilyOtherBlues"),
   ("forceBold", "postscriptForceBold"), ("hStems", "postscriptStemSnapH"), ("vStems", "postscriptStemSnapV")]
 
+/-! ### feature text -/
+
+def perms {α} : List α → List (List α)
+  | [] => [[]]
+  | x :: r => (perms r).flatMap fun p => (List.range (p.length + 1)).map fun i => p.take i ++ [x] ++ p.drop i
+
+/-- the blocks named by `order`, in that order; a name without a block contributes nothing -/
+def blocksInOrder (order : List String) (fs : List (String × String)) : String :=
+  order.foldl (fun acc k => match fs.find? (fun p => p.1 == k) with | some p => acc ++ p.2 | none => acc) ""
+
+/-- the texts the converted features may be: the classes, then (when a feature dictionary exists) a
+    newline and the blocks in the order of the order list; without an order list every order of the
+    blocks is admitted (the statement does not fix one) -/
+def featureCandidates (cls : Option String) (order : Option (List String))
+    (feats : Option (List (String × String))) : List String :=
+  match feats with
+  | none => [cls.getD ""]
+  | some fs =>
+    match order with
+    | some o => [cls.getD "" ++ "\n" ++ blocksInOrder o fs]
+    | none => (perms (fs.map fun p => p.1)).map fun o => cls.getD "" ++ "\n" ++ blocksInOrder o fs
+
 end C14.Spec
